@@ -47,15 +47,18 @@ def vdi(size=7 * K * K, signature=0xbeda107f, total=1024, **kw):
     return pad(bytes(h), total), [0x40, 0x44, 0x170, 0x178, 511, 512, 513]
 
 
-def iso(blocks=300, block_size=2048, ident=b'CD001', desc_type=1, total=40 * K, sys_fill=0, **kw):
+def iso(blocks=300, block_size=2048, ident=b'CD001', desc_type=1, total=40 * K, sys_fill=0, blocks_be=None,
+        block_size_be=None, **kw):
+    """`blocks_be` / `block_size_be` make the big-endian halves of the both-endian fields disagree with the
+    little-endian ones (ill-formed; the code reads the little-endian halves)"""
     h = bytearray(2048)
     h[0] = desc_type
     h[1:6] = ident
     h[6] = 1
     h[80:84] = struct.pack('<I', blocks)
-    h[84:88] = struct.pack('>I', blocks)
+    h[84:88] = struct.pack('>I', blocks if blocks_be is None else blocks_be)
     h[128:130] = struct.pack('<H', block_size)
-    h[130:132] = struct.pack('>H', block_size)
+    h[130:132] = struct.pack('>H', block_size if block_size_be is None else block_size_be)
     img = bytes([sys_fill]) * (32 * K) + bytes(h)
     return pad(img, total), [32 * K - 1, 32 * K, 32 * K + 1, 32 * K + 6, 32 * K + 88, 32 * K + 132, 34 * K - 1, 34 * K, 34 * K + 1]
 
